@@ -266,7 +266,11 @@ func runC05(c *Ctx) {
 	go func() {
 		defer wg.Done()
 		if only != "remote" {
+			t0 := time.Now()
 			runLocal(c, sh, filepath.Join(tmp, "local"))
+			sh.mu.Lock()
+			sh.im.Extra["wall:local"] = time.Since(t0).Round(100 * time.Millisecond).String()
+			sh.mu.Unlock()
 		}
 	}()
 	go func() {
